@@ -88,6 +88,12 @@ ERR_LINE = re.compile(r"Error")
 FAIL_DIAG = re.compile(r"Error|Cannot open|Couldn't open|Unknown |Failed|bailing|not supported|No input|Usage")
 
 
+def list_path(out):
+    """where -l puts the listing: the output name with what follows its last '.' replaced by lst (main/naken_asm.cpp)"""
+    i = out.rfind(".")
+    return out[:i + 1] + "lst" if i > 0 else out + ".lst"
+
+
 def wrap(place, lines, w):
     ind = lines
     if place == "top" or place == "at-end":
@@ -201,12 +207,19 @@ class C12(Engine):
         flags = rng.subset(["-l", "-q", "-dump_symbols", "-dump_macros"], 1, 3)
         faults = []
         if rng.chance(2, 5):
-            k = rng.below(6)
+            k = rng.below(7)
             incs = [f for f in sorted(prog["files"]) if f.endswith(".inc") or f.endswith(".dat")]
             if k == 0 and incs:
                 faults.append({"kind": "vanish", "path": rng.pick(incs), "nth": 2})
             elif k == 1:
-                faults.append({"kind": "open_fail", "path": "lst", "nth": 1, "errno": rng.pick(["EACCES", "ENOSPC", "EMFILE"]), "what": "list"})
+                faults.append({"kind": "open_fail", "path": list_path(out), "nth": 1, "errno": rng.pick(["EACCES", "ENOSPC", "EMFILE"]), "what": "list"})
+                if "-l" not in flags:
+                    flags.append("-l")
+            elif k == 6:
+                # the listing cannot be written (disk full after k bytes): whatever the program makes of that, status,
+                # diagnostics and the file at -o still have to agree
+                faults.append({"kind": "write_fail", "path": list_path(out), "nth": 0, "offset": rng.pick([0, 1, 100, 1000, 4096]) if rng.chance(1, 2) else rng.below(3000),
+                               "errno": rng.pick(["ENOSPC", "EIO"]), "what": "list"})
                 if "-l" not in flags:
                     flags.append("-l")
             elif k == 2:
